@@ -231,14 +231,15 @@ macro_rules! from_slices_case {
         pub fn $name() {
             const IVL: usize = $ivlen;
             let key: [u8; 5] = kani::any();
-            let iv: [u8; IVL + 3] = kani::any();
+            let iv: [u8; 2 * IVL + 2] = kani::any();
             let kl: usize = kani::any();
             let il: usize = kani::any();
             const ILO: usize = if IVL > 2 { IVL - 2 } else { 0 };
-            kani::assume(kl <= 4 && il >= ILO && il <= IVL + 2);
+            const IHI: usize = 2 * IVL + 1; // includes "one block too many" for IGE's double-length IV and 2x
+            kani::assume(kl >= 1 && kl <= 3 && il >= ILO && il <= IHI);
             let mut ok = false;
-            split_on!(kl, 0, 4, kl_ => {
-                split_on!(il, ILO, IVL + 2, il_ => {
+            split_on!(kl, 1, 3, kl_ => {
+                split_on!(il, ILO, IHI, il_ => {
                     ok = <$ty>::new_from_slices(&key[..kl_], &iv[..il_]).is_ok();
                 });
             });
@@ -247,6 +248,7 @@ macro_rules! from_slices_case {
             kani::cover!(kl == 2 && il == IVL + 1);
             kani::cover!(kl == 2 && il + 1 == IVL);
             kani::cover!(kl == 3 && il == IVL);
+            kani::cover!(kl == 2 && il == 2 * IVL);
         }
     };
 }
